@@ -81,7 +81,7 @@ pub fn run(ctx: &Ctx) {
     blocks.push(Block::new(Universe::new("U_adv(A_case)", A_CASE, 3, 1, false), bases.clone(), "i x {{}, r, x, g, e, d, w}"));
     blocks.push(Block::new(Universe::new("U_aAbB{a,A,b,B}", &["a", "A", "b", "B"], 2, 3, true), vec![Cfg::new(I), Cfg::new(I | R), Cfg::new(I | NA | NE)], "i, i+r, i+na+ne"));
     if thorough {
-        blocks.push(Block::new(Universe::new("U_aAbB{a,A,b,B}", &["a", "A", "b", "B"], 3, 3, true), vec![Cfg::new(I)], "i"));
+        blocks.push(Block::new(Universe::new("U_aAbB{a,A,b,B}", &["a", "A", "b", "B"], 3, 3, true), vec![Cfg::new(I), Cfg::new(I | NE)], "i, i+ne"));
         blocks.push(Block::new(Universe::new("U_adv(A_case)", A_CASE, 2, 3, true), vec![Cfg::new(I)], "i"));
     }
     sweep(ctx, &blocks, check_case);
